@@ -2,45 +2,70 @@
 //
 //	orderfacts [--root <overlay dir>] [--allow-missing] <repo> <outdir>
 //
-// Standard library only (go/parser, go/ast, go/token, go/printer).  For a FIXED list of functions (the ones whose
-// call order the abstract-disk crash model lean/SST/Model/FS.lean mirrors by hand) it emits the sequence of calls
-// in SOURCE order as a flat list of items:
+// Standard library only.  The packages of /repo are parsed and TYPE-CHECKED (go/types; same loader as tools/errfacts:
+// packages of the module from source with the overlay applied, everything else through the offline "source" importer).
+// For a FIXED list of functions (the ones whose call order the abstract-disk crash model lean/SST/Model/FS.lean mirrors by
+// hand) it emits the sequence of calls in SOURCE order as a flat list of items:
 //
 //   - `act <label>`: a call (or statement pattern) the tool recognises, e.g. `writerClose`, `saveCompactionFlag`;
-//   - `other "<callee>"`: a call it does not recognise — kept, so that a NEW call between two known ones is visible
-//     (calls on the `ignored` list, pure helpers such as filepath.Join / fmt.Errorf / option constructors, are dropped;
-//     the list is printed into the generated file);
+//   - `other "<callee>"`: a call it does not recognise — kept, so that a NEW call between two known ones is visible;
 //   - structure markers: ifBegin "<condition>" / elseBegin / ifEnd, loopBegin <loop facts> / loopEnd,
 //     deferBegin / deferEnd (body executed at function exit, blocks in reverse order), scopeBegin / scopeEnd (an
 //     immediately invoked function literal), cbBegin / cbEnd (a function literal passed to the preceding call),
 //     ret / brk / cont.
 //
-// `if <err> != nil { return … }` blocks whose body contains no call besides ignored ones are elided, and so are
+// EVERYTHING IS NAMED BY go/types IDENTITIES, NOT BY SOURCE TEXT (canon.go): a callee is `pkg.Func` or
+// `<type of the root variable>.<field path>.Method`, a method also by its static receiver type
+// (`recordio.WriterI.Write`); conditions are normalised (`errNonNil` whatever the variable is called, `nonNil(x)`,
+// `isSentinel(io.EOF)` for errors.Is / == / a one-line helper, comparisons reduced to == and <, locals with a single
+// definition replaced by their defining expression, other locals by their type); loop facts name the iterated value by its
+// type / field path.  Renaming a local, a receiver or a parameter, re-wording a message or adding a log line changes nothing.
+//
+// What is dropped from the sequences (decided by WHAT is called, see canon.go `pureCall`, `optionCtor`, and the short
+// list `pureModuleMethods` of read-only getters of the module's interfaces, printed into the generated file): builtins,
+// conversions, the pure standard packages (strings, strconv, fmt.Sprintf/Errorf, errors, path/filepath without Walk, hash/*,
+// time without tickers …), logging that does not stop the process (log.Print*, fmt.Print*), functional options.
+//
+// HELPERS ARE INLINED: a call of a function / concrete method of the module that is neither listed, nor recognised, nor
+// dropped is replaced by the items of its body (two levels deep; its `return`s end the inlined region), so that an
+// "extract function" refactoring keeps the item list; a helper that does nothing visible disappears.  Calls through
+// interfaces and calls the tool cannot resolve stay `other`.
+//
+// CONTROL FLOW IS PUT INTO A NORMAL FORM before it is flattened, so that re-spelling it changes nothing:
+//   - an exit (return / continue) that does exactly what falling off the end of the block would do is dropped, and with
+//     it the distinction between `if c { A; return }; B` at the end of a function, `if !c { B; return }; A` and
+//     `if c { A } else { B }` (all three: the two-armed conditional);
+//   - otherwise, when one alternative of a conditional leaves the enclosing block (`return X`, `break`, `continue` that is
+//     not the last thing of the loop body, log.Panicf) it is written as a GUARD — `ifBegin c … <exit> ifEnd` without else,
+//     the other alternative following at the same level; when BOTH alternatives leave, the one with fewer actions is the
+//     guard (so `if ok { A; continue }; return err` and `if !ok { return err }; A; continue` are the same list);
+//   - a two-armed conditional none of whose arms leaves is written with its condition in the preferred polarity (fewer
+//     negations); a one-armed one with the condition under which its arm runs;
+//   - `for i := 0; i < len(x); i++` whose body does not assign `i` is the same loop as `for i := range x`.
+//
+// `if <error> != nil { return … }` guards whose body contains no call besides dropped ones are elided, and so are
 // conditionals and loops without any item in them.
-// Loop facts: kind (range / index / while / forever), the list iterated (`over`), the start index, whether the step
-// is one, and whether `sort.Strings(<over>)` precedes the loop in the function with no assignment to the list in between.
+// Loop facts: kind (range / index / while / forever), the value iterated (`over`), the start index, whether the step is
+// one, and whether `sort.Strings(<over>)` precedes the loop in the function with no assignment to the list in between.
 //
 // Evaluation order inside a statement: arguments before the call (post-order); the value of a send before the send.
 //
 // It is compiled and run before every proof build (see DESIGN.md §3.1), so an edit of the call ORDER in the source
 // changes the table the theorems in lean/SST/Props/C*_Order.lean are about.  The file is rewritten only when its
-// content changes.  A listed function that is missing is an error (exit 1) unless --allow-missing is given, in which
-// case it is emitted with `found := false` and no items (the Lean obligations about it then fail).
+// content changes.  A listed function that is missing (or a tree that does not type-check) is an error (exit 1) unless
+// --allow-missing is given, in which case it is emitted with `found := false` and no items (the Lean obligations about it
+// then fail).
 //
-// --root <dir>: overlay — a listed source file is taken from <dir>/<relative path> if it exists there, else from
-// <repo>.  Used to run the tool on scratch copies (historical versions, seeded changes) without touching /repo.
+// --root <dir>: overlay — a source file is taken from <dir>/<relative path> if it exists there, else from <repo>.
 package main
 
 import (
-	"bytes"
 	"fmt"
 	"go/ast"
-	"go/parser"
-	"go/printer"
 	"go/token"
+	"go/types"
 	"os"
 	"path/filepath"
-	"regexp"
 	"sort"
 	"strconv"
 	"strings"
@@ -108,33 +133,21 @@ var labels = []string{
 	"writeHeader", "bufWriteHeader", "newCompressor", "flushBuffer", "compress", "writeRecordHeader", "writePayload", "fsync", "truncate", "closeFile",
 }
 
-// calls without an effect on files, locks, channels or the memstore: dropped from the sequences
-var ignored = map[string]bool{}
+// read-only getters of the module's interfaces / types, by METHOD IDENTITY (static receiver type + name): they cannot be
+// inlined (interface calls) and touch neither files, locks, channels nor the memstore
+var pureModuleMethods = map[string]bool{
+	"memstore.MemStoreI.Size": true, "sstables.SSTableReaderI.MetaData": true, "sstables.SSTableReaderI.BasePath": true,
+	"recordio.WriterI.Size": true, "recordio/proto.WriterI.Size": true, "recordio.FileWriter.Size": true,
+	"skiplist.MapI.Size": true,
+}
 
-func init() {
-	for _, s := range strings.Fields(`
-		len cap append make copy new max min panic uint64 uint32 uint int int64 float64 float32 string byte
-		fmt.Sprintf fmt.Errorf errors.Join errors.Is errors.New
-		filepath.Join filepath.Base log.Printf time.Now time.Since
-		strings.HasPrefix strings.HasSuffix strings.Join strconv.ParseUint os.IsNotExist
-		info.IsDir info.Name info.Size entry.Name stat.IsDir elapsedDuration.Seconds
-		reader.MetaData memStoreToFlush.Size
-		sstables.WriteBasePath sstables.WithKeyComparator sstables.WriteBufferSizeBytes sstables.BloomExpectedNumberOfElements
-		sstables.ReadBasePath sstables.ReadWithKeyComparator sstables.ReadBufferSizeBytes
-		sstables.NewMergeIteratorContext sstables.NewSSTableMerger sstables.ScanReduceLatestWins
-		rProto.Path rProto.WriteBufferSizeBytes rProto.CompressionType rProto.ReaderPath
-		recordio.Path recordio.CompressionType recordio.BufferSizeBytes recordio.DirectIO
-		wal.BasePath wal.MaximumWalFileSizeBytes wal.WriterFactory wal.ReaderFactory
-		fnv.New64 fnvHash.Write crc64.New crc64.MakeTable crc.Write crc.Sum64
-		writer.dataWriter.Size writer.indexWriter.Size a.currentWriter.Size
-		w.file.Name w.bufferPool.Get w.bufferPool.Put pool.NewPool fileHeaderAsByteSlice
-	`) {
-		ignored[s] = true
-	}
+// third-party packages without effects on files, locks, channels (buffer pools, slices helpers)
+var pureThirdParty = map[string]bool{
+	"capnproto.org/go/capnp/v3/exp/bufferpool": true, "golang.org/x/exp/slices": true,
 }
 
 // ---------------------------------------------------------------------------------------------------------
-// items
+// the intermediate tree
 
 type loopInfo struct {
 	kind         string // range | index | while | forever
@@ -142,14 +155,329 @@ type loopInfo struct {
 	start        int // -1: not a literal
 	stepOne      bool
 	sortedBefore bool
-	valVar       string // range: value variable; index loops: ""
-	idxVar       string
 }
+
+type node struct {
+	kind  string // act other if loop defer scope cb ret brk cont
+	s     string // label / callee
+	arg   string // parameter of a parametrised label
+	cond  *cnode
+	fixed bool // a clause of a switch / select: not a sequential conditional, never re-shaped
+	then  []*node
+	els   []*node
+	body  []*node
+	loop  *loopInfo
+	sig   string // ret: canonical text of the results ("!<pos>" when evaluating them has items: never equal to another)
+}
+
+func isExit(n *node) bool {
+	switch n.kind {
+	case "ret", "brk", "cont":
+		return true
+	case "act":
+		return n.s == "panicLog"
+	}
+	return false
+}
+
+func exitSig(n *node) string {
+	switch n.kind {
+	case "ret":
+		return "ret:" + n.sig
+	case "cont":
+		return "cont"
+	case "brk":
+		return "brk"
+	}
+	return "exit:" + n.s
+}
+
+func exits(b []*node) bool { return len(b) > 0 && isExit(b[len(b)-1]) }
+
+// does the exit do what falling off the end of a block with this tail does?
+func tailEq(sig, tail string) bool {
+	if tail == "" {
+		return false
+	}
+	if tail == "ret:*" {
+		return strings.HasPrefix(sig, "ret:")
+	}
+	return sig == tail && !strings.HasPrefix(sig, "ret:!")
+}
+
+func weight(b []*node) (acts, total int) {
+	for _, n := range b {
+		total++
+		if n.kind == "act" || n.kind == "other" {
+			acts++
+		}
+		for _, sub := range [][]*node{n.then, n.els, n.body} {
+			a, t := weight(sub)
+			acts += a
+			total += t
+		}
+	}
+	return
+}
+
+func render1(b []*node) string {
+	var sb strings.Builder
+	for _, it := range flatten(b) {
+		sb.WriteString(it.lean())
+		sb.WriteString(";")
+	}
+	return sb.String()
+}
+
+// a < b in the content order that picks the guard among two leaving alternatives
+func smaller(a, b []*node) int {
+	aa, at := weight(a)
+	ba, bt := weight(b)
+	switch {
+	case aa != ba:
+		return aa - ba
+	case at != bt:
+		return at - bt
+	}
+	return strings.Compare(render1(a), render1(b))
+}
+
+func hasItems(b []*node) bool {
+	for _, n := range b {
+		switch n.kind {
+		case "act", "other", "ret", "brk", "cont":
+			return true
+		case "if":
+			if hasItems(n.then) || hasItems(n.els) {
+				return true
+			}
+		default:
+			if hasItems(n.body) {
+				return true
+			}
+		}
+	}
+	return false
+}
+
+func explicitExit(tail string) *node {
+	switch {
+	case tail == "cont":
+		return &node{kind: "cont"}
+	case strings.HasPrefix(tail, "ret:"):
+		return &node{kind: "ret", sig: strings.TrimPrefix(tail, "ret:")}
+	}
+	return nil
+}
+
+// norm: the normal form of a block; `tail` is what falling off its end does ("" nothing known, "cont", "ret:<sig>", "ret:*")
+func norm(list []*node, tail string) []*node {
+	// a trailing exit that does what falling off would do is redundant
+	var last *node
+	if n := len(list); n > 0 && isExit(list[n-1]) && list[n-1].kind != "act" {
+		last = list[n-1]
+		list = list[:n-1]
+		if tailEq(exitSig(last), tail) {
+			last = nil
+		}
+	}
+	return normSeq(list, tail, last)
+}
+
+// what happens after the whole sequence (list + last)
+func tailAfter(tail string, last *node) string {
+	if last != nil {
+		return exitSig(last)
+	}
+	return tail
+}
+
+// strip a trailing exit that does what T does anyway; reports whether the block then FALLS off its end
+func stripTail(b []*node, T string) ([]*node, bool) {
+	if !exits(b) {
+		return b, true
+	}
+	e := b[len(b)-1]
+	if e.kind != "act" && tailEq(exitSig(e), T) {
+		return b[:len(b)-1], true
+	}
+	return b, false
+}
+
+// normSeq: `list` followed by the explicit exit `last` (may be nil); `tail`: the meaning of falling off when last is nil
+func normSeq(list []*node, tail string, last *node) []*node {
+	var out []*node
+	T := tailAfter(tail, last)
+	for i, n := range list {
+		rest := list[i+1:]
+		switch n.kind {
+		case "loop":
+			n.body = norm(n.body, "cont")
+			if hasItems(n.body) {
+				out = append(out, n)
+			}
+			continue
+		case "defer":
+			if hasItems(n.body) {
+				out = append(out, n)
+			}
+			continue
+		case "if":
+		default:
+			out = append(out, n)
+			if isExit(n) {
+				return out // the rest is unreachable
+			}
+			continue
+		}
+		if n.fixed {
+			n.then = norm(n.then, "")
+			out = append(out, n)
+			continue
+		}
+		armTail := ""
+		if len(rest) == 0 {
+			armTail = T
+		}
+		A := norm(n.then, armTail)
+		B := norm(n.els, armTail)
+		if !exits(A) && !exits(B) {
+			if m := mkIf(n.cond, A, B); m != nil {
+				out = append(out, m)
+			}
+			continue
+		}
+		// at least one arm leaves: the alternatives X = A (+ the rest if A falls through), Y = B (+ the rest …) run to the
+		// end of the sequence; nothing is processed after this conditional
+		X, Y := A, B
+		if !exits(A) {
+			X = append(append([]*node{}, A...), normSeq(rest, tail, last)...)
+		}
+		if !exits(B) {
+			Y = append(append([]*node{}, B...), normSeq(rest, tail, last)...)
+		}
+		Xs, xFalls := stripTail(X, T)
+		Ys, yFalls := stripTail(Y, T)
+		withLast := func(b []*node) []*node {
+			if last != nil {
+				return append(append([]*node{}, b...), last)
+			}
+			return b
+		}
+		if xFalls && yFalls {
+			// both alternatives run to the end of the block and do there what the block does anyway
+			if m := mkIf(n.cond, Xs, Ys); m != nil {
+				out = append(out, m)
+			}
+			return withLast(out)
+		}
+		// guard forms (ending in an explicit exit) and continuation forms of the two alternatives
+		guardForm := func(b []*node, falls bool) []*node {
+			if !falls {
+				return b
+			}
+			if last != nil {
+				return withLast(b)
+			}
+			if e := explicitExit(tail); e != nil {
+				return append(append([]*node{}, b...), e)
+			}
+			return nil // falls through into code the block does not know: cannot be a guard
+		}
+		contForm := func(b []*node, falls bool) []*node {
+			if falls {
+				return withLast(b)
+			}
+			return b
+		}
+		xg, yg := guardForm(Xs, xFalls), guardForm(Ys, yFalls)
+		pickX := false
+		switch {
+		case xg != nil && yg == nil:
+			pickX = true
+		case xg == nil && yg != nil:
+			pickX = false
+		case errSide(n.cond):
+			pickX = true // error handling is the guard, the regular path continues
+		case errSide(n.cond.not()):
+			pickX = false
+		default:
+			// both leave: the alternative with fewer actions is the guard
+			c := smaller(xg, yg)
+			if c == 0 {
+				pickX = n.cond.preferred()
+			} else {
+				pickX = c < 0
+			}
+		}
+		if pickX {
+			out = appendGuard(out, n.cond, xg)
+			return append(out, contForm(Ys, yFalls)...)
+		}
+		out = appendGuard(out, n.cond.not(), yg)
+		return append(out, contForm(Xs, xFalls)...)
+	}
+	if last != nil {
+		out = append(out, last)
+	}
+	return out
+}
+
+// the condition holds only when an error is at hand: errNonNil, or a conjunction with it
+func errSide(c *cnode) bool {
+	if c.isAtom("errNonNil", false) {
+		return true
+	}
+	if c.kind == "and" {
+		for _, k := range c.kids {
+			if k.isAtom("errNonNil", false) {
+				return true
+			}
+		}
+	}
+	return false
+}
+
+func onlyRets(b []*node) bool {
+	for _, n := range b {
+		if n.kind != "ret" {
+			return false
+		}
+	}
+	return true
+}
+
+func appendGuard(out []*node, c *cnode, body []*node) []*node {
+	// plain error propagation: `if err != nil { return … }` without any call
+	if c.isAtom("errNonNil", false) && len(body) == 1 && body[0].kind == "ret" {
+		return out
+	}
+	return append(out, &node{kind: "if", cond: c, then: body})
+}
+
+func mkIf(c *cnode, a, b []*node) *node {
+	ha, hb := hasItems(a), hasItems(b)
+	switch {
+	case !ha && !hb:
+		return nil
+	case ha && !hb:
+		return &node{kind: "if", cond: c, then: a}
+	case !ha && hb:
+		return &node{kind: "if", cond: c.not(), then: b}
+	}
+	if c.preferred() {
+		return &node{kind: "if", cond: c, then: a, els: b}
+	}
+	return &node{kind: "if", cond: c.not(), then: b, els: a}
+}
+
+// ---------------------------------------------------------------------------------------------------------
+// items
 
 type item struct {
 	kind string // act other ifBegin elseBegin ifEnd loopBegin loopEnd deferBegin deferEnd scopeBegin scopeEnd cbBegin cbEnd ret brk cont
-	s    string // label / callee / condition
-	arg  string // parameter of a parametrised label
+	s    string
+	arg  string
 	loop *loopInfo
 }
 
@@ -176,70 +504,150 @@ func (it item) lean() string {
 	}
 }
 
+func flatten(b []*node) []item {
+	var out []item
+	for _, n := range b {
+		switch n.kind {
+		case "act", "other":
+			out = append(out, item{kind: n.kind, s: n.s, arg: n.arg})
+		case "ret", "brk", "cont":
+			out = append(out, item{kind: n.kind})
+		case "if":
+			out = append(out, item{kind: "ifBegin", s: n.cond.String()})
+			out = append(out, flatten(n.then)...)
+			if len(n.els) > 0 {
+				out = append(out, item{kind: "elseBegin"})
+				out = append(out, flatten(n.els)...)
+			}
+			out = append(out, item{kind: "ifEnd"})
+		case "loop":
+			out = append(out, item{kind: "loopBegin", loop: n.loop})
+			out = append(out, flatten(n.body)...)
+			out = append(out, item{kind: "loopEnd"})
+		case "defer", "scope", "cb":
+			out = append(out, item{kind: n.kind + "Begin"})
+			out = append(out, flatten(n.body)...)
+			out = append(out, item{kind: n.kind + "End"})
+		}
+	}
+	return out
+}
+
 // ---------------------------------------------------------------------------------------------------------
 // walker
 
-var fset = token.NewFileSet()
+type loopCtx struct {
+	li       *loopInfo
+	val, idx types.Object
+	listKey  string
+}
 
 type walker struct {
-	fn     string
-	recv   string
-	items  []item
-	loops  []*loopInfo
+	l      *loader
+	fn     string // display name of the LISTED function the items belong to (classification context)
+	c      *canon
+	out    *[]*node
+	loops  []*loopCtx
 	sorted map[string]bool
+	depth  int // inlining depth
+	active map[*types.Func]bool
 }
 
-func (w *walker) emit(it item) { w.items = append(w.items, it) }
+func (w *walker) emit(n *node) { *w.out = append(*w.out, n) }
 
-func exprString(n ast.Node) string {
-	var b bytes.Buffer
-	_ = printer.Fprint(&b, fset, n)
-	return strings.Join(strings.Fields(b.String()), " ")
+func (w *walker) sub(f func()) []*node {
+	save := w.out
+	var buf []*node
+	w.out = &buf
+	f()
+	w.out = save
+	return buf
 }
 
-// calleeName: printed function expression; a call in receiver position is replaced by "(<its callee>)"
-func calleeName(e ast.Expr) string {
-	switch x := e.(type) {
-	case *ast.SelectorExpr:
-		if c, ok := x.X.(*ast.CallExpr); ok {
-			return "(" + calleeName(c.Fun) + ")." + x.Sel.Name
+// identity of a list value for "sorted before the loop" and "element of the list a loop runs over"
+func (w *walker) listKey(e ast.Expr) string {
+	if id, ok := ast.Unparen(e).(*ast.Ident); ok {
+		if o := w.c.objOfIdent(id); o != nil {
+			return fmt.Sprintf("obj@%d", o.Pos())
 		}
-		return exprString(x)
-	case *ast.ParenExpr:
-		return calleeName(x.X)
-	case *ast.ArrayType, *ast.MapType, *ast.ChanType, *ast.InterfaceType, *ast.StarExpr, *ast.FuncType:
-		return "conv"
-	default:
-		return exprString(e)
 	}
+	return w.c.expr(e)
 }
 
-func hasIdent(s, id string) bool {
-	if id == "" || id == "_" {
-		return false
+// how a list / channel is named in loop facts and `sortStrings`: a local by its type, anything else canonically
+func (w *walker) overStr(e ast.Expr) string {
+	if id, ok := ast.Unparen(e).(*ast.Ident); ok {
+		if v, ok := w.c.objOfIdent(id).(*types.Var); ok && !isPkgLevel(v) {
+			return "‹" + w.c.typeStr(v.Type()) + "›"
+		}
 	}
-	return regexp.MustCompile(`(^|[^A-Za-z0-9_.])` + regexp.QuoteMeta(id) + `($|[^A-Za-z0-9_])`).MatchString(s)
+	return w.c.expr(e)
 }
 
-// does the argument text name an element of the list an enclosing loop runs over?
-func (w *walker) loopElem(args string, overSuffix string) bool {
-	for _, l := range w.loops {
-		if !strings.HasSuffix(l.over, overSuffix) {
-			continue
+// the `over` of every enclosing loop an element of which the expression mentions (through locals defined once, too)
+func (w *walker) elemOf(e ast.Expr, depth int) []string {
+	var out []string
+	if e == nil || depth > 3 {
+		return nil
+	}
+	ast.Inspect(e, func(n ast.Node) bool {
+		switch x := n.(type) {
+		case *ast.Ident:
+			o := w.c.objOfIdent(x)
+			if o == nil {
+				return true
+			}
+			for _, l := range w.loops {
+				if l.val != nil && o == l.val {
+					out = append(out, l.li.over)
+				}
+			}
+			if d, ok := w.c.defs[o]; ok && w.c.expandable(o) {
+				out = append(out, w.elemOf(d.rhs, depth+1)...)
+			}
+		case *ast.IndexExpr:
+			if id, ok := ast.Unparen(x.Index).(*ast.Ident); ok {
+				o := w.c.objOfIdent(id)
+				for _, l := range w.loops {
+					if l.idx != nil && o == l.idx && w.listKey(x.X) == l.listKey {
+						out = append(out, l.li.over)
+					}
+				}
+			}
 		}
-		if hasIdent(args, l.valVar) {
-			return true
-		}
-		if l.idxVar != "" && strings.Contains(args, l.over+"["+l.idxVar+"]") {
+		return true
+	})
+	return out
+}
+
+func anySuffix(xs []string, suffix string) bool {
+	for _, x := range xs {
+		if strings.HasSuffix(x, suffix) {
 			return true
 		}
 	}
 	return false
 }
 
-// classify a call.  Returns (label, parameter, known); ignored calls are filtered before.
-func (w *walker) classify(callee string, args []string) (string, string, bool) {
-	a := strings.Join(args, ", ")
+func anyEq(xs []string, s string) bool {
+	for _, x := range xs {
+		if x == s {
+			return true
+		}
+	}
+	return false
+}
+
+// classify a call by its canonical callee / method identity.  Returns (label, parameter, known).
+func (w *walker) classify(callee, m string, call *ast.CallExpr) (string, string, bool) {
+	var a string
+	var elems []string
+	if call != nil {
+		a = w.c.exprs(call.Args)
+		for _, x := range call.Args {
+			elems = append(elems, w.elemOf(x, 0)...)
+		}
+	}
 	fn := w.fn
 	in := func(names ...string) bool {
 		for _, n := range names {
@@ -249,228 +657,227 @@ func (w *walker) classify(callee string, args []string) (string, string, bool) {
 		}
 		return false
 	}
-	suffix := func(s string) bool { return strings.HasSuffix(callee, s) }
+	inPrefix := func(p string) bool { return strings.HasPrefix(fn, p) }
 	switch {
-	// ---- locks
-	case suffix("ock.Lock") || suffix("ock.RLock"):
+	// ---- locks (by the type of the lock, whatever the field is called)
+	case m == "sync.RWMutex.Lock" || m == "sync.RWMutex.RLock" || m == "sync.Mutex.Lock":
 		return "lock", "", true
-	case suffix("ock.Unlock") || suffix("ock.RUnlock"):
+	case m == "sync.RWMutex.Unlock" || m == "sync.RWMutex.RUnlock" || m == "sync.Mutex.Unlock":
 		return "unlock", "", true
 	// ---- goroutines, channels (pseudo callees built by the walker)
-	case callee == "go flushMemstoreContinuously":
+	case callee == "go simpledb.flushMemstoreContinuously":
 		return "spawnFlusher", "", true
-	case callee == "go backgroundCompaction":
+	case callee == "go simpledb.backgroundCompaction":
 		return "spawnCompactor", "", true
-	case callee == "send db.storeFlushChannel":
+	case callee == "send simpledb.DB.storeFlushChannel":
 		return "chanSendFlush", "", true
-	case callee == "close" && a == "db.storeFlushChannel":
+	case callee == "close" && a == "simpledb.DB.storeFlushChannel":
 		return "closeFlushChannel", "", true
-	case callee == "recv db.doneFlushChannel":
+	case callee == "recv simpledb.DB.doneFlushChannel":
 		return "waitFlusherDone", "", true
-	case callee == "send db.doneFlushChannel":
+	case callee == "send simpledb.DB.doneFlushChannel":
 		return "signalFlusherDone", "", true
-	case callee == "send db.compactionTickerStopChannel":
+	case callee == "send simpledb.DB.compactionTickerStopChannel":
 		return "chanSendStopCompaction", "", true
-	case callee == "recv db.doneCompactionChannel":
+	case callee == "recv simpledb.DB.doneCompactionChannel":
 		return "waitCompactorDone", "", true
-	case callee == "send db.doneCompactionChannel":
+	case callee == "send simpledb.DB.doneCompactionChannel":
 		return "signalCompactorDone", "", true
-	case callee == "recv db.compactionTickerStopChannel":
+	case callee == "recv simpledb.DB.compactionTickerStopChannel":
 		return "recvCompactionStop", "", true
-	case callee == "recv db.compactionTicker.C":
+	case callee == "recv simpledb.DB.compactionTicker.C":
 		return "recvCompactionTick", "", true
 	case callee == "time.NewTicker":
 		return "newTicker", "", true
-	case callee == "db.compactionTicker.Stop":
+	case m == "time.Ticker.Stop":
 		return "stopTicker", "", true
-	case callee == "log.Panicf":
+	case strings.HasPrefix(callee, "log.") && logTerminators[strings.TrimPrefix(callee, "log.")]:
 		return "panicLog", "", true
 	// ---- generic
-	case callee == "sort.Strings":
-		return "sortStrings", a, true
-	case callee == "proto.Marshal":
+	case callee == "sort.Strings" && call != nil && len(call.Args) == 1:
+		return "sortStrings", w.overStr(call.Args[0]), true
+	case callee == "google.golang.org/protobuf/proto.Marshal":
 		return "protoMarshal", "", true
-	case callee == "proto.Unmarshal":
+	case callee == "google.golang.org/protobuf/proto.Unmarshal":
 		return "protoUnmarshal", "", true
-	case callee == "filepath.Walk":
+	case callee == "path/filepath.Walk":
 		return "walkDir", "", true
 	case callee == "os.Stat":
 		return "osStat", "", true
 	case callee == "os.ReadDir":
 		return "readDir", "", true
 	// ---- simpledb: client calls
-	case callee == "db.PutBytes":
+	case m == "simpledb.DB.PutBytes":
 		return "putBytesCall", "", true
-	case callee == "db.DeleteBytes":
+	case m == "simpledb.DB.DeleteBytes":
 		return "deleteBytesCall", "", true
-	case callee == "db.wal.Append":
+	case m == "wal.WriteAheadLogI.Append":
 		return "walAppend", "", true
-	case callee == "db.wal.AppendSync":
+	case m == "wal.WriteAheadLogI.AppendSync":
 		return "walAppendSync", "", true
-	case callee == "db.wal.Rotate":
+	case m == "wal.WriteAheadLogI.Rotate":
 		return "walRotate", "", true
-	case callee == "db.wal.Close":
+	case m == "wal.WriteAheadLogI.Close":
 		return "walClose", "", true
-	case callee == "db.memStore.Upsert":
+	case m == "simpledb.RWMemstore.Upsert":
 		return "memUpsert", "", true
-	case callee == "db.memStore.Delete":
+	case m == "simpledb.RWMemstore.Delete":
 		return "memDelete", "", true
-	case callee == "db.memStore.Tombstone":
+	case m == "simpledb.RWMemstore.Tombstone":
 		return "memTombstone", "", true
-	case callee == "db.memStore.EstimatedSizeInBytes":
+	case m == "simpledb.RWMemstore.EstimatedSizeInBytes":
 		return "memSizeEstimate", "", true
-	case callee == "db.rotateWalAndFlushMemstore":
+	case m == "simpledb.DB.rotateWalAndFlushMemstore":
 		return "rotateAndHandOff", "", true
-	case callee == "swapMemstore":
+	case callee == "simpledb.swapMemstore":
 		return "swapMemstore", "", true
 	case callee == "memstore.NewMemStore":
 		return "newMemStore", "", true
-	case callee == "db.sstableManager.currentSSTable":
+	case m == "simpledb.SSTableManager.currentSSTable":
 		return "currentSSTable", "", true
-	case callee == "(db.sstableManager.currentSSTable).Close":
+	case m == "sstables.SSTableReaderI.Close" && inPrefix("simpledb.") || m == "sstables.SSTableReaderI.Close" && inPrefix("DB.") ||
+		m == "sstables.SSTableReaderI.Close" && inPrefix("SSTableManager."):
 		return "readerClose", "", true
-	case callee == "db.sstableManager.clearReaders":
+	case m == "simpledb.SSTableManager.clearReaders":
 		return "clearReaders", "", true
 	// ---- flush
-	case callee == "executeFlush" && in("DB.replayAndSetupWriteAheadLog"):
+	case callee == "simpledb.executeFlush" && in("DB.replayAndSetupWriteAheadLog"):
 		return "executeFlushInRecovery", "", true
-	case callee == "executeFlush":
+	case callee == "simpledb.executeFlush":
 		return "executeFlush", "", true
-	case callee == "atomic.AddUint64" && strings.Contains(a, "currentGeneration"):
+	case callee == "sync/atomic.AddUint64" && strings.Contains(a, "currentGeneration"):
 		return "genIncrement", "", true
 	case callee == "os.MkdirAll" && in("simpledb.executeFlush"):
 		return "mkdirTable", "", true
-	case callee == "os.MkdirAll" && in("DB.replayAndSetupWriteAheadLog") && strings.HasPrefix(a, "walBasePath"):
+	case callee == "os.MkdirAll" && in("DB.replayAndSetupWriteAheadLog") && strings.Contains(a, "simpledb.WriteAheadFolder"):
 		return "mkdirWalDir", "", true
-	case suffix(".FlushWithTombstones"):
+	case m == "memstore.MemStoreI.FlushWithTombstones":
 		return "flushWithTombstones", "", true
-	case callee == "os.Remove" && a == "walPath":
+	case callee == "os.Remove" && a == "simpledb.memStoreFlushAction.walPath":
 		return "removeWalFile", "", true
-	case callee == "os.Remove" && strings.Contains(a, "IndexFileName"):
+	case callee == "os.Remove" && strings.Contains(a, "sstables.IndexFileName"):
 		return "removeIndexFileFirst", "", true
 	case callee == "sstables.NewSSTableReader" && in("DB.reconstructSSTables"):
 		return "loadTable", "", true
 	case callee == "sstables.NewSSTableReader":
 		return "openReader", "", true
-	case suffix("sstableManager.addReader"):
+	case m == "simpledb.SSTableManager.addReader":
 		return "addReader", "", true
 	case callee == "sstables.NewSuperSSTableReader":
 		return "newSuperReader", "", true
-	case callee == "flushMemstore":
+	case callee == "memstore.flushMemstore":
 		return "flushMemstoreCall", "", true
 	case callee == "sstables.NewSSTableStreamWriter":
 		return "newStreamWriter", "", true
-	case callee == "writer.Open" && in("memstore.flushMemstore", "simpledb.executeCompaction"):
+	case (m == "sstables.SSTableStreamWriter.Open" || m == "sstables.SSTableStreamWriterI.Open") && in("memstore.flushMemstore", "simpledb.executeCompaction"):
 		return "writerOpen", "", true
-	case callee == "writer.WriteNext" && in("memstore.flushMemstore"):
+	case (m == "sstables.SSTableStreamWriter.WriteNext" || m == "sstables.SSTableStreamWriterI.WriteNext") && in("memstore.flushMemstore"):
 		return "writerWriteNext", "", true
-	case callee == "writer.Close" && in("memstore.flushMemstore", "simpledb.executeCompaction"):
+	case (m == "sstables.SSTableStreamWriter.Close" || m == "sstables.SSTableStreamWriterI.Close") && in("memstore.flushMemstore", "simpledb.executeCompaction"):
 		return "writerClose", "", true
-	case callee == "m.skipListMap.Iterator":
+	case m == "skiplist.MapI.Iterator" && in("memstore.flushMemstore"):
 		return "memIterator", "", true
-	case callee == "it.Next":
+	case m == "skiplist.IteratorI.Next" && in("memstore.flushMemstore"):
 		return "iterNext", "", true
-	// ---- table writer
-	case callee == "rProto.NewWriter" && in("SSTableStreamWriter.Open"):
+	// ---- table writer (the two record writers are told apart by their TYPES, the metadata file is the *os.File)
+	case callee == "recordio/proto.NewWriter" && in("SSTableStreamWriter.Open"):
 		return "newProtoWriter", "", true
-	case callee == "writer.indexWriter.Open":
+	case m == "recordio/proto.WriterI.Open" && inPrefix("SSTableStreamWriter."):
 		return "openIndexWriter", "", true
 	case callee == "recordio.NewFileWriter":
 		return "newFileWriter", "", true
-	case callee == "writer.dataWriter.Open":
+	case m == "recordio.WriterI.Open" && inPrefix("SSTableStreamWriter."):
 		return "openDataWriter", "", true
-	case callee == "os.OpenFile" && in("SSTableStreamWriter.Open") && strings.Contains(a, "metaFilePath"):
+	case callee == "os.OpenFile" && in("SSTableStreamWriter.Open"):
 		return "openMetaFile", "", true
-	case callee == "bloomfilter.NewOptimal":
+	case callee == "github.com/steakknife/bloomfilter.NewOptimal":
 		return "newBloom", "", true
-	case callee == "verifWriterOpened":
+	case callee == "sstables.verifWriterOpened":
 		return "verifHook", "", true
-	case callee == "writer.opts.keyComparator.Compare":
+	case m == "skiplist.Comparator.Compare" && inPrefix("SSTableStreamWriter."):
 		return "keyCompare", "", true
-	case callee == "writer.bloomFilter.Add":
+	case m == "github.com/steakknife/bloomfilter.Filter.Add":
 		return "bloomAdd", "", true
-	case callee == "writer.dataWriter.Write":
+	case m == "recordio.WriterI.Write" && inPrefix("SSTableStreamWriter."):
 		return "dataWrite", "", true
-	case callee == "writer.indexWriter.Write":
+	case m == "recordio/proto.WriterI.Write" && inPrefix("SSTableStreamWriter."):
 		return "indexWrite", "", true
-	case callee == "writer.dataWriter.Seek":
+	case m == "recordio.WriterI.Seek" && inPrefix("SSTableStreamWriter."):
 		return "dataSeek", "", true
-	case callee == "writer.indexWriter.Close":
+	case m == "recordio/proto.WriterI.Close" && inPrefix("SSTableStreamWriter."):
 		return "closeIndexWriter", "", true
-	case callee == "writer.dataWriter.Close":
+	case m == "recordio.WriterI.Close" && inPrefix("SSTableStreamWriter."):
 		return "closeDataWriter", "", true
-	case callee == "writer.bloomFilter.WriteFile":
+	case m == "github.com/steakknife/bloomfilter.Filter.WriteFile":
 		return "writeBloom", "", true
-	case callee == "writer.metaDataFile.Close":
+	case m == "os.File.Close" && inPrefix("SSTableStreamWriter."):
 		return "closeMetaFile", "", true
-	case callee == "writer.metaDataFile.Write":
+	case m == "os.File.Write" && inPrefix("SSTableStreamWriter."):
 		return "writeMeta", "", true
 	// ---- compaction
-	case callee == "executeCompaction":
+	case callee == "simpledb.executeCompaction":
 		return "executeCompaction", "", true
-	case suffix("sstableManager.reflectCompactionResult"):
+	case m == "simpledb.SSTableManager.reflectCompactionResult":
 		return "reflectCompactionResult", "", true
-	case suffix("sstableManager.candidateTablesForCompaction"):
+	case m == "simpledb.SSTableManager.candidateTablesForCompaction":
 		return "selectCandidates", "", true
-	case callee == "os.MkdirTemp" && strings.Contains(a, "SSTableCompactionPathPrefix"):
+	case callee == "os.MkdirTemp" && strings.Contains(a, "simpledb.SSTableCompactionPathPrefix"):
 		return "mkdirTempCompaction", "", true
-	case callee == "reader.Scan":
+	case m == "sstables.SSTableReaderI.Scan":
 		return "readerScan", "", true
-	case suffix(".MergeCompact"):
+	case m == "sstables.SSTableMerger.MergeCompact" || m == "sstables.SSTableMergerI.MergeCompact":
 		return "mergeCompact", "", true
-	case callee == "saveCompactionMetadata":
+	case callee == "simpledb.saveCompactionMetadata":
 		return "saveCompactionFlag", "", true
-	case callee == "rProto.NewWriter" && in("simpledb.saveCompactionMetadata"):
+	case callee == "recordio/proto.NewWriter" && in("simpledb.saveCompactionMetadata"):
 		return "newProtoWriter", "", true
-	case callee == "metaWriter.Open":
+	case m == "recordio/proto.WriterI.Open" && in("simpledb.saveCompactionMetadata"):
 		return "openFlagWriter", "", true
-	case callee == "metaWriter.Write":
+	case m == "recordio/proto.WriterI.Write" && in("simpledb.saveCompactionMetadata"):
 		return "writeFlag", "", true
-	case callee == "metaWriter.Close":
+	case m == "recordio/proto.WriterI.Close" && in("simpledb.saveCompactionMetadata"):
 		return "closeFlagWriter", "", true
-	case callee == "reader.Close" && in("simpledb.executeCompaction"):
-		return "readerClose", "", true
-	case callee == "s.allSSTableReaders[i].Close":
-		return "readerClose", "", true
-	case callee == "indexOfReader":
+	case callee == "simpledb.indexOfReader":
 		return "indexOfReader", "", true
-	case callee == "removeReaderAt":
+	case callee == "simpledb.removeReaderAt":
 		return "removeReaderAt", "", true
 	case callee == "os.Rename":
 		return "renameIntoPlace", "", true
 	// ---- RemoveAll, by what is removed
-	case callee == "os.RemoveAll" && w.loopElem(a, "SstablePaths"):
+	case callee == "os.RemoveAll" && anySuffix(elems, "CompactionMetadata.SstablePaths"):
 		return "removeAllInput", "", true
-	case callee == "os.RemoveAll" && w.loopElem(a, "compactionsToDelete"):
+	case callee == "os.RemoveAll" && in("DB.repairCompactions") && anyEq(elems, "‹[]string›"):
 		return "removeAllUnflaggedCompaction", "", true
-	case callee == "os.RemoveAll" && strings.Contains(a, "ReplacementPath"):
+	case callee == "os.RemoveAll" && strings.Contains(a, "CompactionMetadata.ReplacementPath"):
 		return "removeAllReplacement", "", true
-	case callee == "os.RemoveAll" && w.loopElem(a, "walFileNames"):
+	case callee == "os.RemoveAll" && in("DB.replayAndSetupWriteAheadLog") && anyEq(elems, "‹[]string›"):
 		return "removeWalFileInRecovery", "", true
-	case callee == "os.RemoveAll" && a == "walBasePath":
+	case callee == "os.RemoveAll" && in("DB.replayAndSetupWriteAheadLog") && a == "path/filepath.Join(simpledb.DB.basePath, simpledb.WriteAheadFolder)":
 		return "removeAllWalDir", "", true
-	case callee == "os.RemoveAll" && (a == "tablePath" || w.loopElem(a, "tablePaths")):
+	case callee == "os.RemoveAll" && in("simpledb.removeUnfinishedTable") && a == "‹string›":
+		return "removeAllTableDir", "", true
+	case callee == "os.RemoveAll" && in("DB.reconstructSSTables") && anyEq(elems, "‹[]string›"):
 		return "removeAllTableDir", "", true
 	// ---- recovery
-	case callee == "db.repairCompactions":
+	case m == "simpledb.DB.repairCompactions":
 		return "repairCompactions", "", true
-	case callee == "db.reconstructSSTables":
+	case m == "simpledb.DB.reconstructSSTables":
 		return "reconstructSSTables", "", true
-	case callee == "db.replayAndSetupWriteAheadLog":
+	case m == "simpledb.DB.replayAndSetupWriteAheadLog":
 		return "replayAndSetupWal", "", true
-	case callee == "rProto.NewReader":
+	case callee == "recordio/proto.NewReader":
 		return "newFlagReader", "", true
-	case callee == "reader.Open" && in("DB.repairCompactions"):
+	case m == "recordio/proto.ReaderI.Open" && in("DB.repairCompactions"):
 		return "openFlagReader", "", true
-	case callee == "reader.ReadNext" && in("DB.repairCompactions"):
+	case m == "recordio/proto.ReaderI.ReadNext" && in("DB.repairCompactions"):
 		return "readFlag", "", true
-	case callee == "reader.Close" && in("DB.repairCompactions"):
+	case m == "recordio/proto.ReaderI.Close" && in("DB.repairCompactions"):
 		return "closeFlagReader", "", true
-	case callee == "hasEmptyMetadata":
+	case callee == "simpledb.hasEmptyMetadata":
 		return "hasEmptyMetadataCheck", "", true
-	case callee == "isUnfinishedTable":
+	case callee == "simpledb.isUnfinishedTable":
 		return "isUnfinishedTableCheck", "", true
-	case callee == "removeUnfinishedTable":
+	case callee == "simpledb.removeUnfinishedTable":
 		return "removeUnfinishedTable", "", true
 	case callee == "recordio.IsDirectIOAvailable":
 		return "directIOCheck", "", true
@@ -480,90 +887,196 @@ func (w *walker) classify(callee string, args []string) (string, string, bool) {
 		return "newFileReader", "", true
 	case callee == "wal.NewReplayer":
 		return "newReplayer", "", true
-	case callee == "replayer.Replay":
+	case m == "wal.WriteAheadLogReplayI.Replay":
 		return "replayWal", "", true
 	case callee == "wal.NewWriteAheadLog":
 		return "newWal", "", true
 	// ---- wal appender / replayer
-	case callee == "checkSizeAndRotate":
+	case callee == "wal.checkSizeAndRotate":
 		return "checkSizeAndRotate", "", true
-	case callee == "a.currentWriter.Write":
+	case m == "recordio.WriterI.Write" && inPrefix("Appender."):
 		return "recWrite", "", true
-	case callee == "a.currentWriter.WriteSync":
+	case m == "recordio.WriterI.WriteSync" && inPrefix("Appender."):
 		return "recWriteSync", "", true
-	case callee == "a.currentWriter.Close":
+	case m == "recordio.WriterI.Close" && inPrefix("Appender."):
 		return "closeCurrentWalWriter", "", true
-	case callee == "a.Rotate":
+	case m == "wal.Appender.Rotate":
 		return "walRotate", "", true
-	case callee == "setupNextWriter":
+	case callee == "wal.setupNextWriter":
 		return "setupNextWriter", "", true
-	case callee == "a.walOptions.writerFactory":
+	case callee == "wal.Appender.walOptions.writerFactory":
 		return "walWriterFactory", "", true
-	case callee == "currentWriter.Open" && in("wal.setupNextWriter"):
+	case m == "recordio.WriterI.Open" && in("wal.setupNextWriter"):
 		return "openWalWriter", "", true
-	case callee == "currentWriter.Close" && in("wal.setupNextWriter"):
+	case m == "recordio.WriterI.Close" && in("wal.setupNextWriter"):
 		return "closeFailedWalWriter", "", true
-	case callee == "r.replayFile":
+	case m == "wal.Replayer.replayFile":
 		return "replayFile", "", true
-	case callee == "r.walOptions.readerFactory":
+	case callee == "wal.Replayer.walOptions.readerFactory":
 		return "walReaderFactory", "", true
-	case callee == "reader.Open" && in("Replayer.replayFile", "Replayer.Replay"):
+	case m == "recordio.ReaderI.Open" && inPrefix("Replayer."):
 		return "walReaderOpen", "", true
-	case callee == "reader.ReadNext" && in("Replayer.replayFile", "Replayer.Replay"):
+	case m == "recordio.ReaderI.ReadNext" && inPrefix("Replayer."):
 		return "walReadNext", "", true
-	case callee == "reader.Close" && in("Replayer.replayFile", "Replayer.Replay"):
+	case m == "recordio.ReaderI.Close" && inPrefix("Replayer."):
 		return "walReaderClose", "", true
-	case callee == "process" && in("Replayer.replayFile", "Replayer.Replay"):
+	case callee == "‹func([]byte) error›" && inPrefix("Replayer."):
 		return "processRecord", "", true
 	// ---- recordio writer
-	case callee == "writeFileHeader":
+	case callee == "recordio.writeFileHeader":
 		return "writeHeader", "", true
-	case callee == "writer.bufWriter.Write" && in("recordio.writeFileHeader"):
+	case m == "recordio.WriteSeekerCloserFlusher.Write" && in("recordio.writeFileHeader"):
 		return "bufWriteHeader", "", true
-	case callee == "NewCompressorForType":
+	case callee == "recordio.NewCompressorForType":
 		return "newCompressor", "", true
-	case callee == "w.bufWriter.Flush":
+	case m == "recordio.WriteSeekerCloserFlusher.Flush" && inPrefix("FileWriter."):
 		return "flushBuffer", "", true
-	case callee == "w.compressor.CompressWithBuf":
+	case m == "recordio/compressor.CompressionI.CompressWithBuf":
 		return "compress", "", true
-	case callee == "writeRecordHeaderV4":
+	case callee == "recordio.writeRecordHeaderV4":
 		return "writeRecordHeader", "", true
-	case callee == "w.bufWriter.Write":
+	case m == "recordio.WriteSeekerCloserFlusher.Write" && inPrefix("FileWriter."):
 		return "writePayload", "", true
-	case callee == "w.Write" && in("FileWriter.WriteSync"):
+	case m == "recordio.FileWriter.Write" && in("FileWriter.WriteSync"):
 		return "recWrite", "", true
-	case callee == "w.file.Sync":
+	case m == "os.File.Sync" && inPrefix("FileWriter."):
 		return "fsync", "", true
-	case callee == "w.file.Truncate":
+	case m == "os.File.Truncate" && inPrefix("FileWriter."):
 		return "truncate", "", true
-	case callee == "w.file.Close":
+	case m == "os.File.Close" && inPrefix("FileWriter."):
 		return "closeFile", "", true
 	}
 	return "", "", false
 }
 
-func (w *walker) call(callee string, args []string) {
-	if ignored[callee] || callee == "conv" {
+func (w *walker) dropped(call *ast.CallExpr) bool {
+	if w.c.pureCall(call) || w.c.optionCtor(call) {
+		return true
+	}
+	m := w.c.method(call)
+	if pureModuleMethods[m] {
+		return true
+	}
+	if f := w.c.calledFunc(call); f != nil && f.Pkg() != nil && pureThirdParty[f.Pkg().Path()] {
+		return true
+	}
+	if sx, ok := ast.Unparen(call.Fun).(*ast.SelectorExpr); ok {
+		if sel, ok := w.c.info.Selections[sx]; ok && sel.Kind() == types.MethodVal {
+			t := types.Unalias(sel.Recv())
+			if p, ok := t.(*types.Pointer); ok {
+				t = types.Unalias(p.Elem())
+			}
+			if n, ok := t.(*types.Named); ok && n.Obj().Pkg() != nil && pureThirdParty[n.Obj().Pkg().Path()] {
+				return true
+			}
+		}
+	}
+	return false
+}
+
+// a real call (not a pseudo callee)
+func (w *walker) call(call *ast.CallExpr) {
+	if w.dropped(call) {
 		return
 	}
-	if l, p, ok := w.classify(callee, args); ok {
-		w.emit(item{kind: "act", s: l, arg: p})
-		if l == "sortStrings" {
-			w.sorted[p] = true
+	callee, m := w.c.callee(call), w.c.method(call)
+	if id, ok := ast.Unparen(call.Fun).(*ast.Ident); ok {
+		if _, isB := w.c.info.Uses[id].(*types.Builtin); isB && id.Name == "panic" {
+			w.emit(&node{kind: "other", s: "panic"})
+			w.emit(&node{kind: "ret", sig: "!panic"})
+			return
+		}
+	}
+	if l, p, ok := w.classify(callee, m, call); ok {
+		w.emit(&node{kind: "act", s: l, arg: p})
+		if l == "sortStrings" && len(call.Args) == 1 {
+			w.sorted[w.listKey(call.Args[0])] = true
 		}
 		return
 	}
-	w.emit(item{kind: "other", s: callee})
+	if w.inline(call) {
+		return
+	}
+	w.emit(&node{kind: "other", s: callee})
 }
 
-// sub-walk: collect the items of a block separately
-func (w *walker) sub(f func()) []item {
-	save := w.items
-	w.items = nil
-	f()
-	out := w.items
-	w.items = save
-	return out
+func (w *walker) pseudo(callee string) {
+	if l, p, ok := w.classify(callee, "", nil); ok {
+		w.emit(&node{kind: "act", s: l, arg: p})
+		return
+	}
+	w.emit(&node{kind: "other", s: callee})
+}
+
+// inline a helper of the module: a function or CONCRETE method whose declaration is known.  Its body is walked with the
+// caller's classification context; every `return` of it is equivalent to reaching its end.
+func (w *walker) inline(call *ast.CallExpr) bool {
+	f := w.c.calledFunc(call)
+	if f == nil || w.depth >= 2 {
+		return false
+	}
+	if sx, ok := ast.Unparen(call.Fun).(*ast.SelectorExpr); ok {
+		if sel, ok := w.c.info.Selections[sx]; ok {
+			if _, isIface := sel.Recv().Underlying().(*types.Interface); isIface {
+				return false
+			}
+		}
+	}
+	h := w.l.lookup(f)
+	if h == nil || w.active[f.Origin()] {
+		return false
+	}
+	w.active[f.Origin()] = true
+	defer delete(w.active, f.Origin())
+	hw := &walker{l: w.l, fn: w.fn, c: newCanon(w.l.mod, h.info, h.fd.Body, w.l.lookup), sorted: map[string]bool{}, depth: w.depth + 1,
+		active: w.active}
+	// the helper's parameters (and receiver) stand for the caller's arguments: conditions and argument-based labels inside
+	// the helper read as if the code stood in the caller
+	if sig, ok := f.Type().(*types.Signature); ok {
+		if !sig.Variadic() && sig.Params().Len() == len(call.Args) {
+			for i := 0; i < sig.Params().Len(); i++ {
+				if !w.c.isErrorTyped(call.Args[i]) {
+					hw.c.subst[sig.Params().At(i)] = w.c.expr(call.Args[i])
+				}
+			}
+		}
+		if sig.Recv() != nil {
+			if sx, ok := ast.Unparen(call.Fun).(*ast.SelectorExpr); ok {
+				hw.c.subst[sig.Recv()] = w.c.selRoot(sx.X)
+			}
+		}
+	}
+	body := hw.sub(func() { hw.block(h.fd.Body.List) })
+	body = norm(body, "ret:*")
+	if !hasItems(body) {
+		return true // a helper without visible effect
+	}
+	if containsRet(body) {
+		w.emit(&node{kind: "scope", body: body})
+		return true
+	}
+	for _, n := range body {
+		w.emit(n)
+	}
+	return true
+}
+
+func containsRet(b []*node) bool {
+	for _, n := range b {
+		switch n.kind {
+		case "ret":
+			return true
+		case "if":
+			if containsRet(n.then) || containsRet(n.els) {
+				return true
+			}
+		case "loop":
+			if containsRet(n.body) {
+				return true
+			}
+		}
+	}
+	return false
 }
 
 func (w *walker) block(stmts []ast.Stmt) {
@@ -572,25 +1085,12 @@ func (w *walker) block(stmts []ast.Stmt) {
 	}
 }
 
-var errCond = regexp.MustCompile(`^[A-Za-z]*[eE]rr != nil$`)
-
-func onlyRets(items []item) bool {
-	for _, it := range items {
-		if it.kind != "ret" {
-			return false
-		}
-	}
-	return true
-}
-
 func (w *walker) unsort(e ast.Expr) {
 	switch x := e.(type) {
-	case *ast.Ident:
-		delete(w.sorted, x.Name)
+	case *ast.Ident, *ast.SelectorExpr:
+		delete(w.sorted, w.listKey(x))
 	case *ast.IndexExpr:
 		w.unsort(x.X)
-	case *ast.SelectorExpr:
-		delete(w.sorted, exprString(x))
 	}
 }
 
@@ -603,7 +1103,8 @@ func intLit(e ast.Expr) int {
 	return -1
 }
 
-func isValidateEmpty(s *ast.IfStmt) bool {
+// `if len(k) == 0 || len(v) == 0 { return ErrEmptyKeyValue }`
+func (w *walker) isValidateEmpty(s *ast.IfStmt) bool {
 	if s.Else != nil || s.Init != nil || len(s.Body.List) != 1 {
 		return false
 	}
@@ -613,12 +1114,76 @@ func isValidateEmpty(s *ast.IfStmt) bool {
 	}
 	mentions := false
 	for _, e := range r.Results {
-		if strings.HasSuffix(exprString(e), "ErrEmptyKeyValue") {
+		if w.c.sentinelName(e) == "simpledb.ErrEmptyKeyValue" {
 			mentions = true
 		}
 	}
-	c := exprString(s.Cond)
-	return mentions && strings.Contains(c, "len(") && strings.Contains(c, "== 0")
+	c := w.c.cond(s.Cond)
+	lens := func(n *cnode) bool {
+		return n.kind == "atom" && !n.neg && strings.HasPrefix(n.text, "len(") && strings.HasSuffix(n.text, ") == 0")
+	}
+	okc := lens(c)
+	if c.kind == "or" {
+		okc = true
+		for _, k := range c.kids {
+			if !lens(k) {
+				okc = false
+			}
+		}
+	}
+	return mentions && okc
+}
+
+// the results of a return: their items, then the ret node
+func (w *walker) ret(x *ast.ReturnStmt) {
+	items := w.sub(func() {
+		for _, r := range x.Results {
+			w.expr(r)
+		}
+	})
+	for _, n := range items {
+		w.emit(n)
+	}
+	var parts []string
+	for _, r := range x.Results {
+		switch {
+		case isNilIdent(r):
+			parts = append(parts, "nil")
+		case w.c.isErrorTyped(r):
+			parts = append(parts, "err") // whatever it is called or says
+		default:
+			parts = append(parts, w.c.expr(r))
+		}
+	}
+	sig := strings.Join(parts, ", ")
+	if len(items) > 0 {
+		sig = fmt.Sprintf("!%d", x.Pos())
+	}
+	w.emit(&node{kind: "ret", sig: sig})
+}
+
+func (w *walker) assigned(body ast.Node, o types.Object) bool {
+	found := false
+	ast.Inspect(body, func(n ast.Node) bool {
+		switch x := n.(type) {
+		case *ast.AssignStmt:
+			for _, l := range x.Lhs {
+				if id, ok := l.(*ast.Ident); ok && w.c.objOfIdent(id) == o {
+					found = true
+				}
+			}
+		case *ast.IncDecStmt:
+			if id, ok := x.X.(*ast.Ident); ok && w.c.objOfIdent(id) == o {
+				found = true
+			}
+		case *ast.UnaryExpr:
+			if id, ok := ast.Unparen(x.X).(*ast.Ident); ok && x.Op == token.AND && w.c.objOfIdent(id) == o {
+				found = true
+			}
+		}
+		return true
+	})
+	return found
 }
 
 func (w *walker) stmt(s ast.Stmt) {
@@ -651,86 +1216,98 @@ func (w *walker) stmt(s ast.Stmt) {
 		w.expr(x.X)
 	case *ast.SendStmt:
 		w.expr(x.Value)
-		w.call("send "+exprString(x.Chan), nil)
+		w.pseudo("send " + w.c.expr(x.Chan))
 	case *ast.ReturnStmt:
-		for _, r := range x.Results {
-			w.expr(r)
-		}
-		w.emit(item{kind: "ret"})
+		w.ret(x)
 	case *ast.BranchStmt:
 		switch x.Tok {
 		case token.BREAK:
-			w.emit(item{kind: "brk"})
+			w.emit(&node{kind: "brk"})
 		case token.CONTINUE:
-			w.emit(item{kind: "cont"})
+			w.emit(&node{kind: "cont"})
 		default:
-			w.emit(item{kind: "other", s: x.Tok.String()})
+			w.emit(&node{kind: "other", s: x.Tok.String()})
 		}
 	case *ast.BlockStmt:
 		w.block(x.List)
 	case *ast.LabeledStmt:
 		w.stmt(x.Stmt)
+	case *ast.EmptyStmt:
 	case *ast.IfStmt:
-		if isValidateEmpty(x) {
-			w.emit(item{kind: "act", s: "validateEmpty"})
+		if w.isValidateEmpty(x) {
+			w.emit(&node{kind: "act", s: "validateEmpty"})
 			return
 		}
 		w.stmt(x.Init)
 		w.expr(x.Cond)
-		cond := exprString(x.Cond)
-		body := w.sub(func() { w.block(x.Body.List) })
-		var els []item
+		n := &node{kind: "if", cond: w.c.cond(x.Cond)}
+		n.then = w.sub(func() { w.block(x.Body.List) })
 		if x.Else != nil {
-			els = w.sub(func() { w.stmt(x.Else) })
+			n.els = w.sub(func() { w.stmt(x.Else) })
 		}
-		if errCond.MatchString(cond) && x.Else == nil && onlyRets(body) {
+		if n.cond.isAtom("errNonNil", false) && x.Else == nil && len(n.then) > 0 && onlyRets(n.then) {
 			return // plain error propagation
 		}
-		if len(body) == 0 && len(els) == 0 {
-			return // nothing but ignored calls / plain assignments in either branch
-		}
-		w.emit(item{kind: "ifBegin", s: cond})
-		w.items = append(w.items, body...)
-		if x.Else != nil {
-			w.emit(item{kind: "elseBegin"})
-			w.items = append(w.items, els...)
-		}
-		w.emit(item{kind: "ifEnd"})
+		w.emit(n)
 	case *ast.ForStmt:
 		li := &loopInfo{kind: "forever", start: -1}
+		lc := &loopCtx{li: li}
 		if x.Init != nil {
 			w.stmt(x.Init)
 			if as, ok := x.Init.(*ast.AssignStmt); ok && len(as.Lhs) == 1 && len(as.Rhs) == 1 {
-				li.idxVar = exprString(as.Lhs[0])
+				if id, ok := as.Lhs[0].(*ast.Ident); ok {
+					lc.idx = w.c.objOfIdent(id)
+				}
 				li.start = intLit(as.Rhs[0])
 			}
 		}
 		if x.Cond != nil {
 			li.kind = "while"
-			c := exprString(x.Cond)
-			if m := regexp.MustCompile(`^(\w+) < len\((.+)\)$`).FindStringSubmatch(c); m != nil && m[1] == li.idxVar {
-				li.kind = "index"
-				li.over = m[2]
-			} else {
-				li.over = c
+			li.over = w.c.cond(x.Cond).String()
+			// i < len(X)
+			if be, ok := ast.Unparen(x.Cond).(*ast.BinaryExpr); ok && be.Op == token.LSS && lc.idx != nil {
+				if id, ok := ast.Unparen(be.X).(*ast.Ident); ok && w.c.objOfIdent(id) == lc.idx {
+					if ce, ok := ast.Unparen(be.Y).(*ast.CallExpr); ok && len(ce.Args) == 1 {
+						if fid, ok := ce.Fun.(*ast.Ident); ok && fid.Name == "len" {
+							li.kind = "index"
+							li.over = w.overStr(ce.Args[0])
+							lc.listKey = w.listKey(ce.Args[0])
+						}
+					}
+				}
 			}
 		}
-		if inc, ok := x.Post.(*ast.IncDecStmt); ok && inc.Tok == token.INC && exprString(inc.X) == li.idxVar {
-			li.stepOne = true
+		if inc, ok := x.Post.(*ast.IncDecStmt); ok && inc.Tok == token.INC && lc.idx != nil {
+			if id, ok := inc.X.(*ast.Ident); ok && w.c.objOfIdent(id) == lc.idx {
+				li.stepOne = true
+			}
 		}
-		li.sortedBefore = li.over != "" && w.sorted[li.over]
-		w.loop(li, x.Body, x.Post)
+		li.sortedBefore = lc.listKey != "" && w.sorted[lc.listKey]
+		// `for i := 0; i < len(x); i++` that never assigns i is `for i := range x`
+		if li.kind == "index" && li.start == 0 && li.stepOne && !w.assigned(x.Body, lc.idx) {
+			li.kind = "range"
+		}
+		w.loop(lc, x.Body, x.Post)
 	case *ast.RangeStmt:
 		w.expr(x.X)
-		li := &loopInfo{kind: "range", over: exprString(x.X), start: 0, stepOne: true}
-		if x.Key != nil {
-			li.idxVar = exprString(x.Key)
+		li := &loopInfo{kind: "range", over: w.overStr(x.X), start: 0, stepOne: true}
+		lc := &loopCtx{li: li, listKey: w.listKey(x.X)}
+		isChan := false
+		if t := w.c.typeOf(x.X); t != nil {
+			_, isChan = t.Underlying().(*types.Chan)
 		}
-		if x.Value != nil {
-			li.valVar = exprString(x.Value)
+		if id, ok := x.Key.(*ast.Ident); ok && id.Name != "_" {
+			if isChan {
+				lc.val = w.c.objOfIdent(id)
+			} else {
+				lc.idx = w.c.objOfIdent(id)
+			}
 		}
-		li.sortedBefore = w.sorted[li.over]
-		w.loop(li, x.Body, nil)
+		if id, ok := x.Value.(*ast.Ident); ok && id.Name != "_" {
+			lc.val = w.c.objOfIdent(id)
+		}
+		li.sortedBefore = w.sorted[lc.listKey]
+		w.loop(lc, x.Body, nil)
 	case *ast.SwitchStmt:
 		w.stmt(x.Init)
 		if x.Tag != nil {
@@ -745,34 +1322,25 @@ func (w *walker) stmt(s ast.Stmt) {
 		w.clauses(x.Body)
 	case *ast.DeferStmt:
 		body := w.sub(func() { w.invoke(x.Call, true) })
-		if len(body) > 0 {
-			w.emit(item{kind: "deferBegin"})
-			w.items = append(w.items, body...)
-			w.emit(item{kind: "deferEnd"})
-		}
+		w.emit(&node{kind: "defer", body: body})
 	case *ast.GoStmt:
 		for _, a := range x.Call.Args {
 			w.expr(a)
 		}
-		w.call("go "+calleeName(x.Call.Fun), nil)
+		w.pseudo("go " + w.c.callee(x.Call))
 	default:
-		w.emit(item{kind: "other", s: fmt.Sprintf("stmt %T", s)})
+		w.emit(&node{kind: "other", s: fmt.Sprintf("stmt %T", s)})
 	}
 }
 
-func (w *walker) loop(li *loopInfo, body *ast.BlockStmt, post ast.Stmt) {
-	w.loops = append(w.loops, li)
+func (w *walker) loop(lc *loopCtx, body *ast.BlockStmt, post ast.Stmt) {
+	w.loops = append(w.loops, lc)
 	items := w.sub(func() {
 		w.block(body.List)
 		w.stmt(post)
 	})
 	w.loops = w.loops[:len(w.loops)-1]
-	if len(items) == 0 {
-		return // a loop without calls (e.g. collecting names)
-	}
-	w.emit(item{kind: "loopBegin", loop: li})
-	w.items = append(w.items, items...)
-	w.emit(item{kind: "loopEnd"})
+	w.emit(&node{kind: "loop", loop: lc.li, body: items})
 }
 
 func (w *walker) clauses(b *ast.BlockStmt) {
@@ -781,68 +1349,85 @@ func (w *walker) clauses(b *ast.BlockStmt) {
 		case *ast.CaseClause:
 			t := "default"
 			if cc.List != nil {
-				var p []string
-				for _, e := range cc.List {
-					p = append(p, exprString(e))
-				}
-				t = "case " + strings.Join(p, ", ")
+				t = "case " + w.c.exprs(cc.List)
 			}
-			w.emit(item{kind: "ifBegin", s: t})
-			w.block(cc.Body)
-			w.emit(item{kind: "ifEnd"})
+			body := w.sub(func() { w.block(cc.Body) })
+			w.emit(&node{kind: "if", fixed: true, cond: atom(t, ""), then: body})
 		case *ast.CommClause:
 			t := "default"
 			if cc.Comm != nil {
-				t = "case " + exprString(cc.Comm)
+				t = "case " + w.commStr(cc.Comm)
 			}
-			w.emit(item{kind: "ifBegin", s: t})
-			w.stmt(cc.Comm)
-			w.block(cc.Body)
-			w.emit(item{kind: "ifEnd"})
+			body := w.sub(func() {
+				w.stmt(cc.Comm)
+				w.block(cc.Body)
+			})
+			w.emit(&node{kind: "if", fixed: true, cond: atom(t, ""), then: body})
 		}
 	}
+}
+
+func (w *walker) commStr(s ast.Stmt) string {
+	switch x := s.(type) {
+	case *ast.ExprStmt:
+		return w.c.expr(x.X)
+	case *ast.SendStmt:
+		return w.c.expr(x.Chan) + " <- …"
+	case *ast.AssignStmt:
+		if len(x.Rhs) == 1 {
+			return w.c.expr(x.Rhs[0])
+		}
+	}
+	return "?"
+}
+
+// what falling off the end of a function (literal) body does
+func (w *walker) bodyTail(ft *ast.FuncType) string {
+	if ft.Results == nil || len(ft.Results.List) == 0 {
+		return "ret:"
+	}
+	return ""
 }
 
 // a call expression; `deferred`: the call of a defer statement (arguments are evaluated at the defer statement, which
 // makes no difference for the calls listed here: none of them has a call as an argument)
 func (w *walker) invoke(c *ast.CallExpr, deferred bool) {
-	if fl, ok := c.Fun.(*ast.FuncLit); ok {
+	if fl, ok := ast.Unparen(c.Fun).(*ast.FuncLit); ok {
 		for _, a := range c.Args {
 			w.expr(a)
 		}
+		body := norm(w.sub(func() { w.block(fl.Body.List) }), w.bodyTail(fl.Type))
 		if deferred {
-			w.block(fl.Body.List)
+			for _, n := range body {
+				w.emit(n)
+			}
 			return
 		}
-		w.emit(item{kind: "scopeBegin"})
-		w.block(fl.Body.List)
-		w.emit(item{kind: "scopeEnd"})
+		w.emit(&node{kind: "scope", body: body})
 		return
 	}
 	// calls in receiver position first
-	switch f := c.Fun.(type) {
+	switch f := ast.Unparen(c.Fun).(type) {
 	case *ast.SelectorExpr:
 		w.expr(f.X)
-	case *ast.ParenExpr:
-		w.expr(f.X)
 	}
-	var args []string
 	var lits []*ast.FuncLit
 	for _, a := range c.Args {
 		if fl, ok := a.(*ast.FuncLit); ok {
 			lits = append(lits, fl)
-			args = append(args, "func")
 			continue
 		}
 		w.expr(a)
-		args = append(args, exprString(a))
 	}
-	w.call(calleeName(c.Fun), args)
+	w.call(c)
 	for _, fl := range lits {
-		w.emit(item{kind: "cbBegin"})
-		w.block(fl.Body.List)
-		w.emit(item{kind: "cbEnd"})
+		w.lit(fl)
 	}
+}
+
+func (w *walker) lit(fl *ast.FuncLit) {
+	body := norm(w.sub(func() { w.block(fl.Body.List) }), w.bodyTail(fl.Type))
+	w.emit(&node{kind: "cb", body: body})
 }
 
 func (w *walker) expr(e ast.Expr) {
@@ -851,16 +1436,14 @@ func (w *walker) expr(e ast.Expr) {
 	case *ast.CallExpr:
 		w.invoke(x, false)
 	case *ast.FuncLit:
-		w.emit(item{kind: "cbBegin"})
-		w.block(x.Body.List)
-		w.emit(item{kind: "cbEnd"})
+		w.lit(x)
 	case *ast.BinaryExpr:
 		w.expr(x.X)
 		w.expr(x.Y)
 	case *ast.UnaryExpr:
 		w.expr(x.X)
 		if x.Op == token.ARROW {
-			w.call("recv "+exprString(x.X), nil)
+			w.pseudo("recv " + w.c.expr(x.X))
 		}
 	case *ast.ParenExpr:
 		w.expr(x.X)
@@ -889,23 +1472,10 @@ func (w *walker) expr(e ast.Expr) {
 
 // ---------------------------------------------------------------------------------------------------------
 
-func recvName(fd *ast.FuncDecl) string {
-	if fd.Recv == nil || len(fd.Recv.List) == 0 {
-		return ""
-	}
-	t := fd.Recv.List[0].Type
-	if s, ok := t.(*ast.StarExpr); ok {
-		t = s.X
-	}
-	if id, ok := t.(*ast.Ident); ok {
-		return id.Name
-	}
-	return ""
-}
-
 func leanStr(s string) string {
 	s = strings.ReplaceAll(s, "\\", "\\\\")
 	s = strings.ReplaceAll(s, "\"", "\\\"")
+	s = strings.ReplaceAll(s, "--", "-\\x2d") // ./check strips `--` comments line-wise before it looks for forbidden words
 	return "\"" + s + "\""
 }
 
@@ -951,49 +1521,72 @@ func main() {
 		fmt.Fprintln(os.Stderr, "usage: orderfacts [--root <overlay dir>] [--allow-missing] <repo> <outdir>")
 		os.Exit(2)
 	}
-	repo, out := pos[0], pos[1]
+	repo, err := filepath.Abs(pos[0])
+	if err != nil {
+		fatal(err)
+	}
+	out := pos[1]
+	if root != "" {
+		if root, err = filepath.Abs(root); err != nil {
+			fatal(err)
+		}
+	}
 	if err := os.MkdirAll(out, 0o755); err != nil {
 		fatal(err)
 	}
+	l := newLoader(repo, root)
 
 	var fns []fnOut
 	var missing []string
 	for _, t := range targets {
-		path := filepath.Join(repo, t.file)
-		if root != "" {
-			if _, err := os.Stat(filepath.Join(root, t.file)); err == nil {
-				path = filepath.Join(root, t.file)
-			}
+		path := l.mod + "/" + filepath.ToSlash(filepath.Dir(t.file))
+		if _, ok := l.infos[path]; !ok {
+			l.check(path)
 		}
-		f, err := parser.ParseFile(fset, path, nil, 0)
-		if err != nil {
-			fatal(err)
-		}
-		decls := map[string]*ast.FuncDecl{}
-		for _, d := range f.Decls {
-			if fd, ok := d.(*ast.FuncDecl); ok && fd.Body != nil {
-				n := fd.Name.Name
-				if r := recvName(fd); r != "" {
-					n = r + "." + n
-				}
-				decls[n] = fd
-			}
-		}
+		pkg := l.pkgs[path]
 		for _, n := range t.fns {
 			disp := n
 			if !strings.Contains(n, ".") {
 				disp = t.pkg + "." + n
 			}
-			fd := decls[n]
+			var fd *ast.FuncDecl
+			file := t.file
+			if fobj, _ := resolveFunc(l.mod, pkg, n); fobj != nil {
+				if h := l.lookup(fobj); h != nil {
+					fd = h.fd
+					if rel, err := filepath.Rel(repo, fset.Position(fd.Pos()).Filename); err == nil && !strings.HasPrefix(rel, "..") {
+						file = rel
+					} else if root != "" {
+						if rel, err := filepath.Rel(root, fset.Position(fd.Pos()).Filename); err == nil && !strings.HasPrefix(rel, "..") {
+							file = rel
+						}
+					}
+				}
+			}
 			if fd == nil {
-				missing = append(missing, fmt.Sprintf("%s (expected in %s)", disp, t.file))
+				missing = append(missing, fmt.Sprintf("%s (package %s)", disp, t.pkg))
 				fns = append(fns, fnOut{name: disp, file: t.file})
 				continue
 			}
-			w := &walker{fn: disp, recv: recvName(fd), sorted: map[string]bool{}}
-			w.block(fd.Body.List)
-			fns = append(fns, fnOut{name: disp, file: t.file, found: true, items: w.items})
+			w := &walker{l: l, fn: disp, c: newCanon(l.mod, l.infos[path], fd.Body, l.lookup), sorted: map[string]bool{},
+				active: map[*types.Func]bool{}}
+			if self, ok := l.infos[path].Defs[fd.Name].(*types.Func); ok {
+				w.active[self] = true
+			}
+			body := w.sub(func() { w.block(fd.Body.List) })
+			body = norm(body, w.bodyTail(fd.Type))
+			fns = append(fns, fnOut{name: disp, file: file, found: true, items: flatten(body)})
 		}
+	}
+	for _, r := range l.renamed {
+		fmt.Fprintln(os.Stderr, "orderfacts: note: private function renamed:", r)
+	}
+	if len(l.problems) > 0 {
+		msg := "the source does not type-check (or an import could not be resolved offline):\n  " + strings.Join(l.problems, "\n  ")
+		if !allowMissing {
+			fatal(msg)
+		}
+		fmt.Fprintln(os.Stderr, "orderfacts: warning:", msg)
 	}
 	if len(missing) > 0 && !allowMissing {
 		fatal("listed function(s) not found in the source — the crash model's order tie is broken:\n  " + strings.Join(missing, "\n  "))
@@ -1006,31 +1599,36 @@ func main() {
 
 func render(fns []fnOut) string {
 	var sb strings.Builder
-	sb.WriteString("-- GENERATED by tools/orderfacts from /repo/{simpledb,sstables,memstore,wal,recordio}/*.go. Do not edit; rewritten when the source changes.\n")
-	sb.WriteString("-- For each listed function: its calls in source order (arguments before the call), classified into action labels;\n")
-	sb.WriteString("-- unrecognised calls are kept as `other`; `if err != nil { return … }` blocks without further calls are elided.\n")
+	sb.WriteString("-- GENERATED by tools/orderfacts from /repo/{simpledb,sstables,memstore,wal,recordio}/*.go (go/types). Do not edit; rewritten when the source changes.\n")
+	sb.WriteString("-- For each listed function: its calls in source order (arguments before the call), classified into action labels by the\n")
+	sb.WriteString("-- go/types identity of the callee; unrecognised calls are kept as `other`; helpers of the module are inlined; control flow\n")
+	sb.WriteString("-- is in the normal form described in the header of tools/orderfacts/main.go; `if <error> != nil { return … }` guards\n")
+	sb.WriteString("-- without further calls are elided.  Conditions and loop facts are canonical texts (tools/orderfacts/canon.go).\n")
 	sb.WriteString("namespace SST.Generated.Order\n\n")
 	sb.WriteString("/-- the action vocabulary of tools/orderfacts -/\ninductive Label where\n")
 	for _, l := range labels {
 		sb.WriteString("  | " + l + "\n")
 	}
 	sb.WriteString("  | sortStrings (list : String)\n  deriving DecidableEq, Repr\n\n")
-	sb.WriteString("/-- facts about one loop: kind (range / index / while / forever), the list it runs over, the first index,\nwhether the step is one, whether `sort.Strings(over)` precedes it with no assignment to the list in between -/\n")
+	sb.WriteString("/-- facts about one loop: kind (range / index / while / forever), the value it runs over (a local by its type, a field by\nits path), the first index, whether the step is one, whether `sort.Strings(over)` precedes it with no assignment to the list in between -/\n")
 	sb.WriteString("structure Loop where\n  kind : String\n  over : String\n  start : Option Nat\n  stepOne : Bool\n  sortedBefore : Bool\n  deriving DecidableEq, Repr\n\n")
 	sb.WriteString("inductive Item where\n  | act (l : Label)\n  | other (callee : String)\n  | ifBegin (cond : String)\n  | elseBegin\n  | ifEnd\n  | loopBegin (l : Loop)\n  | loopEnd\n" +
 		"  | deferBegin\n  | deferEnd\n  | scopeBegin\n  | scopeEnd\n  | cbBegin\n  | cbEnd\n  | ret\n  | brk\n  | cont\n  deriving DecidableEq, Repr\n\n")
 	sb.WriteString("structure Fn where\n  name : String\n  file : String\n  found : Bool\n  items : List Item\n  deriving Repr\n\n")
 	var ig []string
-	for k := range ignored {
+	for k := range pureModuleMethods {
 		ig = append(ig, k)
 	}
+	for k := range pureThirdParty {
+		ig = append(ig, k+".*")
+	}
 	sort.Strings(ig)
-	sb.WriteString("/-- calls dropped from the sequences (no effect on files, locks, channels, memstore) -/\ndef ignoredCalls : List String := [")
+	sb.WriteString("/-- besides what is dropped by the KIND of callee (builtins, conversions, pure standard packages, non-fatal logging,\nfunctional options, helpers without visible effect): read-only getters of the module, by method identity -/\ndef ignoredCalls : List String := [")
 	for i, k := range ig {
 		if i > 0 {
 			sb.WriteString(", ")
 		}
-		if i%8 == 0 {
+		if i%4 == 0 {
 			sb.WriteString("\n  ")
 		}
 		sb.WriteString(leanStr(k))
